@@ -1,6 +1,6 @@
 (* C12 — build and inline are pure, repeatable and independent of process history.  Property theorems only. *)
 From Coq Require Import List String Bool.
-From Spox Require Import Base IR Show Build Sem Plan Validate BuildFacts Store StoreFacts.
+From Spox Require Import Base IR Show Build Sem Plan Validate BuildFacts Store StoreFacts DfsFacts ScopeFacts EmitFacts.
 Import ListNotations.
 
 (* build leaves the name of every Var the caller holds as it found it — on success and on every failure, and also when one
@@ -26,3 +26,14 @@ Theorem C12_only_reachable_emitted :
 Proof. intros p r m i o H Hi Ho. apply build_checked_inv in H. destruct H as [_ Hv].
   exact (proj2 (emitted_exactly_once p r m i o Hi Ho Hv)). Qed.
 Print Assumptions C12_only_reachable_emitted.
+
+(* The same without the validator: nothing that was constructed earlier in the process and is not needed by the request can show up in a
+   built model - the emitted applications are taken from the traversal that starts at the requested outputs, in every graph of the model. *)
+Theorem C12_nothing_unrequested_is_emitted_by_construction :
+  forall p r m inputs outputs,
+  build_public p r = inl m -> all_vars (r_inputs r) = Some inputs -> all_vars (r_outputs r) = Some outputs ->
+  exists args, (r_drop r = false -> args = map snd inputs) /\ (forall a, In a args -> In a (map snd inputs)) /\
+    forall u, In u (srcs_graph (mmain m)) ->
+      In u (topo_of (with_main p (Some args) outputs) 0) /\ is_arg (with_main p (Some args) outputs) u = false.
+Proof. exact build_public_emits_only_reachable. Qed.
+Print Assumptions C12_nothing_unrequested_is_emitted_by_construction.
